@@ -951,7 +951,10 @@ def generate(prop, run_seed, tier='quick', tolerate=frozenset()):
     state = {'token': 0}
     after = -1
     for _ in range(crng.choice([1, 2, 3, 4, 6])):
-        dry = execute(copy.deepcopy(sc), prop, tolerate)
+        try:
+            dry = execute(copy.deepcopy(sc), prop, tolerate)
+        except Exception:       # reported when sc is executed (run_one)
+            return [sc]
         if dry['violation'] is not None:
             return [sc]
         acts = [k for k in dict.fromkeys(dry['activations'])
@@ -967,7 +970,10 @@ def generate(prop, run_seed, tier='quick', tolerate=frozenset()):
     out = [sc]
     if prop != 'C14':
         return out
-    dry = execute(copy.deepcopy(sc), prop, tolerate)
+    try:
+        dry = execute(copy.deepcopy(sc), prop, tolerate)
+    except Exception:
+        return out
     if dry['violation'] is not None:
         return out
     acts = [k for k in dict.fromkeys(dry['activations'])
